@@ -27,6 +27,11 @@
                                                                                  PlannerA.validate_A, runsim on steps_of
    add_joinstep is the identity (no Links: link_trekker.data is empty; left_join_frameworks = {}); need_to_upload (only
    read by the MULTIPROCESSING back end) is not modelled.
+   Not mirrors of code but decidable descriptions used by the theorems / the harness: group_cfwb (the fragment), erase (the
+   reduction to Stage A), kf_tfs_choice = step_uniform + knodup demand_keys (where add_tfs has no choice to make),
+   ord_obs (the order oracle rebuilt from one observed preparation), chkB_* (checkers evaluated by harness/planner_b.py).
+   The run-time registry lookup that consumes any_uuid / children_if_root / tfs_ids is modelled in Model/PlanDefects.v
+   (route_sync).
 
    uuid4 of a TransformFrameworkStep: any fresh value.  The model numbers the KEPT transform steps tbase, tbase+2, ... in
    the order in which they are created (= their order in the plan) and the constructed-but-dropped ones tbase+1,
